@@ -6,9 +6,9 @@ package main
 //   udesc <decls> | <Top>         the descriptor getStructDesc computes (through the VerifStructDesc hook)
 //   uenc  <decls> | <value>       Encode
 //   udec  <decls> | <Top> <hex>   Decode of valid, truncated and mutated encodings
-// Unsupported field types, unknown tag names and other descriptor errors are placed in the TOP structure only: the
-// library discovers a bad nested structure type lazily (when a value reaches it), the elaborated schema of the model is
-// eager - an approximation that is harmless for the library's own types and is kept out of the generated cases.
+// Unsupported field types, unknown tag names and other descriptor errors occur in the top structure (the library rejects
+// the type up front) and, since the elaboration of Fields.v became lazy about them, in nested structure types too (the
+// library finds out only when a value reaches the field: the model marks such a position as one no value can occupy).
 
 import (
 	"fmt"
@@ -108,13 +108,13 @@ func (g *umGen) structType(depth int, bad bool, defs map[string]bool) reflect.Ty
 		case k < 12:
 			ft = umLibStructs[g.r.Intn(len(umLibStructs))]
 		case k < 15:
-			ft = g.structType(depth+1, false, defs)
+			ft = g.structType(depth+1, bad && g.r.Intn(3) == 0, defs) // a nested type with a descriptor error: found only when a value reaches it
 		case k < 17:
 			ft = reflect.SliceOf(userLeafTypes[g.r.Intn(len(userLeafTypes))])
 		case k < 18:
 			ft = reflect.SliceOf(umLibStructs[g.r.Intn(len(umLibStructs))])
 		default:
-			ft = reflect.SliceOf(g.structType(depth+1, false, defs))
+			ft = reflect.SliceOf(g.structType(depth+1, bad && g.r.Intn(3) == 0, defs))
 		}
 		ann := "~"
 		if g.r.Intn(8) != 0 {
